@@ -64,10 +64,10 @@ Fixpoint nats_eqb (a b : list nat) : bool :=
   end.
 
 (* The oracle is read off the observation: results of the calls that were
-   made.  The model then has to reproduce everything else. *)
+   made, and the error the call returned (the errgroup's pick).  The model then has to reproduce everything else. *)
 Definition oracle_of (c : ocall) : option oracle :=
   match oc_fm c with
-  | Some (_, r) => Some (mkO r (oc_puts c))
+  | Some (_, r) => Some (mkO r (oc_puts c) (oc_ret c))
   | None => None
   end.
 
